@@ -15,8 +15,8 @@ func Backend(t *rapid.T, label string) string {
 // without parameters, and the x-gzip alias.
 var equivHeaderSpellings = map[string][][]string{
 	"Accept-Encoding": {{"gzip, br"}, {"br, gzip"}, {"gzip,br"}, {"x-gzip, br"}, {" gzip ,  br"}},
-	"Accept-Language": {{"en, fr"}, {"fr, en"}, {"en,fr"}},
-	"X-A":             {{"1"}},
+	"Accept-Language": {{"en, fr"}, {"fr, en"}, {"en,fr"}, {"en", "fr"}, {"en", "fr"}},
+	"X-A":             {{"1"}, {"1"}, {"1", "b"}, {"1, b"}},
 }
 
 var otherHeaderValues = map[string][]string{
@@ -160,6 +160,13 @@ func C08(t *rapid.T) *world.Scenario {
 			rq.Cond = &f2
 		case 2:
 			rq.Cond = &world.Reply{Kind: "resp", Status: 200, Body: world.Body{Len: 20}, Header: [][2]string{H("Date", "$T+0"), H("Cache-Control", "no-store")}}
+		}
+		if rq.Cond != nil && Pct(t, lbl+"-bglat", 30) {
+			// a slow answer: with stale-while-revalidate the validation is still in flight
+			// while the following requests (other variants) are served
+			bg := *rq.Cond
+			bg.LatencyNs = Pick(t, lbl+"-bglatn", int64(1), 2, 3) * Sec
+			rq.Bg = &bg
 		}
 		sc.Steps = append(sc.Steps, ReqStep(rq))
 	}
